@@ -178,7 +178,7 @@ def strip_core_guard(b, rep):
             if not st:
                 raise Unrecognised("OscPut arm: guard statement expected first in the core build")
             g = hir.simp(st[0])
-            inner = hir.stmts_of(g)
+            inner = [g] if g.get("k") == "if" else hir.stmts_of(g)      # the guard, bare or in the block a `#[cfg]` attribute needs
             ok = False
             if len(inner) == 1 and hir.simp(inner[0]).get("k") == "if" and "e" not in hir.simp(inner[0]):
                 c = hir.simp(hir.simp(inner[0])["c"])
